@@ -126,12 +126,11 @@ def javaMember (c : JavaCfg) (f : FieldD) : MemberS := { ty := javaDataType c f.
 def javaGetter (c : JavaCfg) (f : FieldD) : MethodS :=
   { pre := ["public"], ret := javaDataType c f.ty false, name := convert c.methodStyle ("get_" ++ f.name), params := [], post := [] }
 
-/-- simple names of the thrown error domains (`error.type_def.java.name`), only for synchronous methods -/
+/-- qualified class names of the thrown error domains (`error.type_def.java.typename`, after the `fix:` commit
+    f437e03 that replaced the simple name), only for synchronous methods -/
 def javaThrows (c : JavaCfg) (m : MethodD) : List String :=
   match m.throwing with
-  | some l => if m.isAsync then [] else l.map (fun d => match d with
-      | .user u => convert c.tyStyle u.name
-      | d => javaRefName c d)
+  | some l => if m.isAsync then [] else l.map (javaTypename c)
   | none => []
 
 def javaMethod (c : JavaCfg) (m : MethodD) : MethodS :=
